@@ -41,6 +41,23 @@ def _ident(res, fmt):
 AUTH_COLS = ("auth_seq_id", "auth_comp_id", "auth_asym_id", "auth_atom_id")
 
 
+def _neighbours(sel, cell):
+    """near(i) -> indices of the rows in the 27 cells around row i (cells of `cell` A, so everything within `cell`)."""
+    grid = {}
+    key = lambda r: (math.floor(r["x"] / cell), math.floor(r["y"] / cell), math.floor(r["z"] / cell))
+    for i, r in enumerate(sel):
+        grid.setdefault(key(r), []).append(i)
+
+    def near(i):
+        cx, cy, cz = key(sel[i])
+        for dx in (-1, 0, 1):
+            for dy in (-1, 0, 1):
+                for dz in (-1, 0, 1):
+                    yield from grid.get((cx + dx, cy + dy, cz + dz), ())
+
+    return near
+
+
 def judge(rec, exp, structure, exc):
     rows, fmt, req, desc = exp["rows"], exp["fmt"], exp["model"], exp["desc"]
     models = []
@@ -127,13 +144,17 @@ def judge(rec, exp, structure, exc):
             if i in kept and sel[i]["occ"] < mx:
                 bad = (k, sel[i]["occ"], mx)
     rec.check("atoms.best-copy-kept", bad is None, lambda: det({"kept-lower-occupancy-copy": bad}))
-    # close pairs among kept
+    # close pairs among kept (neighbours found by hashing the atoms into cells of 0.6 A: independent of any tree)
     kk = sorted(kept)
     close = None
-    for ai in range(len(kk)):
-        ra = sel[kk[ai]]
-        for bi in range(ai + 1, len(kk)):
-            rb = sel[kk[bi]]
+    near = _neighbours(sel, 0.6)
+    kept_set = set(kk)
+    for ia in kk:
+        ra = sel[ia]
+        for ib in near(ia):
+            if ib <= ia or ib not in kept_set:
+                continue
+            rb = sel[ib]
             d = math.dist((ra["x"], ra["y"], ra["z"]), (rb["x"], rb["y"], rb["z"]))
             if d < 0.5 - 1e-6 and ra["occ"] is not None and rb["occ"] is not None:
                 close = (ra["name"], rb["name"], round(d, 4))
@@ -148,7 +169,8 @@ def judge(rec, exp, structure, exc):
             if j != i and (sel[j]["occ"] is None or r["occ"] is None or sel[j]["occ"] >= r["occ"]):
                 just = True
         if not just and r["occ"] is not None:
-            for j, q in enumerate(sel):
+            for j in near(i):
+                q = sel[j]
                 if j != i and q["occ"] is not None and q["occ"] >= r["occ"] and math.dist((r["x"], r["y"], r["z"]), (q["x"], q["y"], q["z"])) < 0.5 + 1e-6:
                     just = True
                     break
@@ -212,6 +234,9 @@ def cases(shard, nshards, seed, tier):
         for fmt in ("pdb", "cif"):
             if mine():
                 yield {"family": "corpus-reemitted", "file": fn, "fmt": fmt}
+    for fmt in (("pdb",) if tier == "quick" else ("pdb", "cif")):
+        if mine():
+            yield {"family": "eighty-thousand-atoms", "fmt": fmt}
     for fn in ("tests/2HY9.cif", "tests/6RS3.cif"):
         for m in ([1, 2, 10] if tier == "quick" else list(range(1, 11))):
             if mine():
@@ -335,6 +360,28 @@ def run_case(case, rec):
                 _read(text, fmt, req)
             finally:
                 _cur["expect"] = None
+        return
+    if fam == "eighty-thousand-atoms":
+        # a very large entry: 80 005 atoms on a lattice, and close pairs whose two atoms are far apart in the file
+        # (the first residue against solvent at the end; atom 30 000 against atom 60 000)
+        fmt = case["fmt"]
+        rows = []
+        for i in range(80000):
+            rows.append({"rec": "ATOM", "serial": i + 1, "name": "P", "alt": None, "resname": "A", "chain": "ABCDEFGH"[i // 10000], "resseq": i % 10000, "icode": None,
+                         "x": round((i % 50) * 3.0, 3), "y": round((i // 50 % 50) * 3.0, 3), "z": round((i // 2500) * 3.0, 3), "occ": 1.0, "b": 0.0, "element": "P", "charge": None, "model": 1})
+        for k, (src_i, occ) in enumerate(((0, 0.4), (30000, 1.0), (60000, 0.5), (79999, 0.7), (12345, 0.2))):
+            a = rows[src_i]
+            if src_i in (30000, 79999):
+                a["occ"] = 0.6
+            rows.append({"rec": "HETATM", "serial": 80001 + k, "name": "O", "alt": None, "resname": "HOH", "chain": "W", "resseq": k + 1, "icode": None,
+                         "x": round(a["x"] + 0.3, 3), "y": a["y"], "z": a["z"], "occ": occ, "b": 0.0, "element": "O", "charge": None, "model": 1})
+        text = emit.emit_pdb(rows) if fmt == "pdb" else emit.emit_cif(rows)
+        rec.mark_nontrivial(True)
+        _cur["expect"] = {"rows": rows, "fmt": fmt, "model": None, "desc": {"atoms": len(rows), "fmt": fmt}}
+        try:
+            _read(text, fmt, None)
+        finally:
+            _cur["expect"] = None
         return
     if fam == "corpus-reemitted":
         s = gen3d.load(case["file"])
